@@ -80,11 +80,13 @@ func (s *SqlDIDDocumentManager) CreateOrUpdate(did orm.DID, verificationMethods 
 
 func (s *SqlDIDDocumentManager) Latest(did did.DID, resolveTime *time.Time) (*orm.DidDocument, error) {
 	doc := orm.DidDocument{}
-	notAfter := time.Now().Add(time.Hour).Unix()
+	query := s.tx.Preload("DID").Preload("Services").Preload("VerificationMethods").Where("did = ?", did.String())
 	if resolveTime != nil {
-		notAfter = resolveTime.Unix()
+		// only bound by time when the caller asks for the document at a specific moment,
+		// "latest" is the highest version regardless of the clock at the time it was written.
+		query = query.Where("updated_at <= ?", resolveTime.Unix())
 	}
-	err := s.tx.Preload("DID").Preload("Services").Preload("VerificationMethods").Where("did = ? AND updated_at <= ?", did.String(), notAfter).Order("version desc").First(&doc).Error
+	err := query.Order("version desc").First(&doc).Error
 	if err != nil {
 		return nil, err
 	}
